@@ -85,7 +85,7 @@ func newDataPathModel(p *Prog) *dataPathModel {
 
 func checkC04(c *Ctx) {
 	r, p := c.R, c.P
-	r.Explanation = "Decides three structural necessary conditions of 'unreadable data yields an error'. (E1) In every module function on the data path (reachable from the function that decodes and flattens the data text), each call that returns an error is followed, on every intra-procedural path on which that error is non-nil, by a return of a non-nil error or a panic, and no such error result is discarded. (E2) On every inlined path from every validating entry point (pkg.*, internal/validator.*, with deferred recover() modelled and every dependency call forked into a panicking path): once a data-path error is known non-nil or a panic raised below the data stages has been recovered, the entry point returns a non-nil error and neither the policy evaluation nor the report builder is called afterwards. (E3) The value handed to rego.EvalInput on any path is the result of the reader call made on that same path (no cache, no fallback). Thorough tier adds (E4): the js/wasm wrappers return err.Error() and not the report when the library returns an error. Does not decide which byte strings encoding/json and json-gold reject."
+	r.Explanation = "Decides three structural necessary conditions of 'unreadable data yields an error'. (E1) In every module function on the data path (reachable from the function that decodes and flattens the data text), each call that returns an error is followed, on every intra-procedural path on which that error is non-nil, by a return of a non-nil error or a panic, and no such error result is discarded. (E2) On every inlined path from every validating entry point (pkg.*, internal/validator.*, with deferred recover() modelled and every dependency call forked into a panicking path): once a data-path error is known non-nil or a panic raised below the data stages has been recovered, the entry point returns a non-nil error and neither the policy evaluation nor the report builder is called afterwards. (E3) The value handed to rego.EvalInput on any path is the result of the reader call made on that same path (no cache, no fallback). (E4) In the GOOS=js GOARCH=wasm build the wrappers return a text derived from the error, not the report, when the library returns an error. Does not decide which byte strings encoding/json and json-gold reject."
 	r.Declines = []string{"which byte strings encoding/json and json-gold reject (trusted base)", "trailing bytes after the first JSON value (json.Decoder semantics)"}
 	r.Trusted = []string{"encoding/json and json-gold return a non-nil error (or panic) for every text they cannot read"}
 	r.Rule("C04.E1", "data-path functions: a non-nil error from a callee is returned as a non-nil error (or panics), never dropped", 2)
@@ -509,9 +509,7 @@ func checkC04(c *Ctx) {
 		r.OK("C04.E7", "census", "", "no explicit panic on the data path")
 	}
 
-	if c.Thorough() {
-		c04JS(c)
-	}
+	c04JS(c)
 }
 
 // localErrorDiscipline: intra-procedural rule (C04.E1, C16.X3) for one function: each listed fallible call's error is
@@ -717,7 +715,46 @@ func c04Returned(ci ssa.CallInstruction) bool {
 	return flows(v)
 }
 
-// c04JS (thorough): the js/wasm front end returns err.Error() when the library call fails.
+// avDerivesFromError: the value is computed from the error result of the call (err.Error(), a concatenation or a
+// formatting call that has it among its operands, a helper that is handed err), judged on the SSA operands of the
+// instruction that produced it.
+func avDerivesFromError(v AV, call *ssa.Call) bool {
+	seen := map[ssa.Value]bool{}
+	var fromVal func(x ssa.Value, depth int) bool
+	fromVal = func(x ssa.Value, depth int) bool {
+		if x == nil || seen[x] || depth > 12 {
+			return false
+		}
+		seen[x] = true
+		if ex, ok := x.(*ssa.Extract); ok && ex.Tuple == ssa.Value(call) {
+			return isErrorType(ex.Type())
+		}
+		ins, ok := x.(ssa.Instruction)
+		if !ok {
+			return false
+		}
+		for _, op := range ins.Operands(nil) {
+			if op != nil && *op != nil && fromVal(*op, depth+1) {
+				return true
+			}
+		}
+		return false
+	}
+	if v.Origin == ssa.Instruction(call) {
+		return v.Index != 0
+	}
+	for _, a := range v.CallArgs {
+		if avDerivesFromError(a, call) {
+			return true
+		}
+	}
+	if ov, ok := v.Origin.(ssa.Value); ok {
+		return fromVal(ov, 0)
+	}
+	return false
+}
+
+// c04JS: the js/wasm front end returns the error's text when the library call fails.
 func c04JS(c *Ctx) {
 	r := c.R
 	jp, err := Load(c.RepoDir, "js", "wasm", "./js")
@@ -725,7 +762,7 @@ func c04JS(c *Ctx) {
 		r.Unknown("C04.E4", "js", "", "GOOS=js GOARCH=wasm build of ./js could not be loaded: "+err.Error())
 		return
 	}
-	r.Rule("C04.E4", "js/wasm wrappers: when the library call returns a non-nil error the wrapper returns err.Error(), not the report", 2)
+	r.Rule("C04.E4", "js/wasm wrappers: when the library call returns a non-nil error the wrapper returns a text derived from that error (err.Error()), not the report and not a constant", 2)
 	sp := jp.SSAPkg("js")
 	if sp == nil {
 		r.Unknown("C04.E4", "js", "", "package js not found in the js/wasm load")
@@ -769,12 +806,11 @@ func c04JS(c *Ctx) {
 			}
 			failing++
 			res := o.Results[0]
-			okRes := false
-			if ci, ok := res.Origin.(ssa.CallInstruction); ok && funcFullName(ssaCalleeObj(ci)) == "(error).Error" {
-				okRes = true
-			}
-			if !okRes {
-				bad = "on the failing path the wrapper does not return err.Error(); decisions: " + strings.Join(o.Decisions, "; ")
+			switch {
+			case res.Origin == ssa.Instruction(libCall) && res.Index == 0:
+				bad = "on the failing path the wrapper returns the library's first result (the report) instead of the error; decisions: " + strings.Join(o.Decisions, "; ")
+			case !avDerivesFromError(res, libCall):
+				bad = "on the failing path the value the wrapper returns does not derive from the library's error (err.Error() or a text built from it); decisions: " + strings.Join(o.Decisions, "; ")
 			}
 		}
 		k := FuncKey(fn)
